@@ -49,6 +49,18 @@ Proof. unfold st_remove_node_prop. destruct (aget _ _ _); cbn; intros; congruenc
 Lemma st_remove_edge_prop_false s id k : snd (st_remove_edge_prop s id k) = false -> fst (st_remove_edge_prop s id k) = s.
 Proof. unfold st_remove_edge_prop. destruct (aget _ _ _); cbn; intros; congruence. Qed.
 
+(** the cascade of [delete_node]: the store after it is the replay of the records it logs *)
+Lemma delete_edges_apply es : forall s,
+  fst (delete_edges s es) = apply_all s (snd (delete_edges s es)) /\ forallb is_data (snd (delete_edges s es)) = true.
+Proof.
+  induction es as [|e r IH]; intros s; [split; reflexivity|].
+  cbn [delete_edges]. destruct (st_delete_edge s e) as [s1 b] eqn:D. specialize (IH s1).
+  destruct (delete_edges s1 r) as [s2 rs]. cbn [fst snd] in *. destruct IH as [IH1 IH2]. destruct b.
+  - split; [|exact IH2]. cbn [apply_all fold_left apply_record]. rewrite D. exact IH1.
+  - split; [|exact IH2]. pose proof (st_delete_edge_false s e) as F. rewrite D in F. cbn [fst snd] in F.
+    rewrite <- (F eq_refl). exact IH1.
+Qed.
+
 (** an operation that is neither a session mutation nor a property removal that removed
     something changes the store exactly as the replay of the records it logs, logs only data
     records, and leaves the transaction manager alone *)
@@ -67,9 +79,20 @@ Proof.
         (map (fun kv => SetNodeProperty (s_nn s) (fst kv) (snd kv)) ps)).
       rewrite set_props_node_apply, <- create_node_is_with_id. reflexivity.
     + cbn [forallb is_data andb]. apply data_setnode.
-  - (* delete_node *) destruct (st_delete_node s id) as [s' b] eqn:D. injection E as <- <- <- <-.
-    destruct b; repeat split. + cbn. now rewrite D.
-    + cbn. pose proof (st_delete_node_false s id) as F. rewrite D in F. apply F. reflexivity.
+  - (* delete_node *)
+    assert (C : exists s0 ers, (if node_visible s id then delete_edges s (incident_edges s id) else (s, [])) = (s0, ers)
+                               /\ s0 = apply_all s ers /\ forallb is_data ers = true).
+    { destruct (node_visible s id).
+      - destruct (delete_edges_apply (incident_edges s id) s) as [A B].
+        destruct (delete_edges s (incident_edges s id)) as [s0 ers]. exists s0, ers. auto.
+      - exists s, []. auto. }
+    destruct C as (s0 & ers & EC & A0 & B0). rewrite EC in E.
+    destruct (st_delete_node s0 id) as [s' b] eqn:D. injection E as <- <- <- <-.
+    destruct b; repeat split.
+    + rewrite apply_all_app, <- A0. cbn. now rewrite D.
+    + rewrite forallb_app, B0. reflexivity.
+    + rewrite app_nil_r. pose proof (st_delete_node_false s0 id) as F. rewrite D in F. cbn [fst snd] in F. rewrite (F eq_refl). exact A0.
+    + rewrite app_nil_r. exact B0.
   - (* set_node_property *) injection E as <- <- <- <-. repeat split.
   - (* add label *) destruct (st_add_label s id l) as [s' b] eqn:D. injection E as <- <- <- <-.
     destruct b; repeat split. + cbn. now rewrite D.
